@@ -73,6 +73,7 @@ def judgeAddr (σ : BindState) (s : AddrStep) (o : AddrObs) : Option String × B
     | none => true
     | some (p, ad) => !(p == protoUnix || p == protoTcp) || (p == protoUnix && ad.isEmpty)
   if o.cls == "panic" || o.clientClass == "panic" then (some "panic", σ')
+  else if o.cls == "hang" then (some "bind-or-serve-cycle-hangs(service-unusable)", σ')
   else if propertySaysRefuse && o.cls == "ok" then (some "ill-formed-address-accepted", σ')
   else
   match r with
@@ -137,6 +138,7 @@ def cmdAddr : P String := do
 
 inductive ROpTok where
   | register (n d : Bytes) | listen | open_ | close | shutdown
+  | info | desc (n : Bytes)       -- queries in the middle of a history: no effect on the state
 
 def regOpP : P ROpTok := do
   let k ← tok
@@ -146,14 +148,18 @@ def regOpP : P ROpTok := do
   | "open" => pure .open_
   | "close" => pure .close
   | "shutdown" => pure .shutdown
+  | "info" => pure .info
+  | "desc" => do let n ← bytes; pure (.desc n)
   | _ => throw s!"bad reg op {k}"
 
-def ROpTok.toOp : ROpTok → RegOp
-  | .register n d => .register n d
-  | .listen => .listenStarts
-  | .open_ => .connOpens
-  | .close => .connCloses
-  | .shutdown => .shutdownCompletes
+def ROpTok.toOp : ROpTok → Option RegOp
+  | .register n d => some (.register n d)
+  | .listen => some .listenStarts
+  | .open_ => some .connOpens
+  | .close => some .connCloses
+  | .shutdown => some .shutdownCompletes
+  | .info => none
+  | .desc _ => none
 
 def regResStr : RegResult → String
   | .ok => "ok" | .refusedDuplicate => "dup" | .refusedRunning => "running" | .noop => "noop"
@@ -176,19 +182,51 @@ def cmdReg : P String := do
   let ops ← listOf regOpP
   expect "|"
   let nreg := (ops.filter (fun o => match o with | .register _ _ => true | _ => false)).length
-  let rec toks : Nat → P (List String)
-    | 0 => pure []
-    | k + 1 => do let t ← tok; let r ← toks k; pure (t :: r)
-  let obsRes ← toks nreg
+  -- walk the history: registrations report their result, queries are compared with the state then
+  let rec walk (s : RegState) : List ROpTok → P (RegState × List String × List String × Option String)
+    | [] => pure (s, [], [], none)
+    | o :: os => do
+      match o with
+      | .register n d =>
+        let t ← tok
+        let (s', r) := s.step (.register n d)
+        let (sf, es, obs, bad) ← walk s' os
+        pure (sf, regResStr r :: es, t :: obs, bad)
+      | .info =>
+        let ok ← bool
+        let v ← bytes; let p ← bytes; let ver ← bytes; let u ← bytes
+        let ifs ← listOf bytes
+        let good := match clientGetInfo s.reg with
+          | some inf => ok && infoBeq inf v p ver u ifs
+          | none => false
+        let (sf, es, obs, bad) ← walk s os
+        pure (sf, es, obs, if good then bad else some "getinfo-in-mid-history-differs")
+      | .desc n =>
+        let k ← tok
+        let t ← bytes
+        let good := match clientGetDescription s.reg n with
+          | .description d => k == "desc" && t == d
+          | .invalidParameter p => k == "invalid" && t == p
+        let (sf, es, obs, bad) ← walk s os
+        pure (sf, es, obs, if good then bad else some "description-in-mid-history-differs")
+      | other =>
+        let s' := match other.toOp with
+          | some op => (s.step op).1
+          | none => s
+        walk s' os
+  let (sfW, expResW, obsRes, midBad) ← walk (RegState.init vendor product version url) ops
   let infoOk ← bool
   let gv ← bytes; let gp ← bytes; let gver ← bytes; let gu ← bytes
   let gi ← listOf bytes
   let asked ← listOf (do let n ← bytes; let k ← tok; let t ← bytes; pure (n, k, t))
   let hasResolver ← bool
-  let (sf, expRes) := runRegOps (RegState.init vendor product version url) (ops.map ROpTok.toOp)
+  let (sf, expRes) := (sfW, expResW)
   let refused := expRes.any (· != "ok")
   let feats := s!"nt={if refused then 1 else 0} ops={ops.length} regs={nreg} accepted={sf.reg.ifaces.length} asked={asked.length}"
   if expRes != obsRes then return s!"DIFF C13 register-results model={expRes} observed={obsRes} {feats}"
+  match midBad with
+  | some why => return s!"DIFF C13 {why} {feats}"
+  | none => pure ()
   if !infoOk then return s!"DIFF C13 getinfo-failed {feats}"
   match clientGetInfo sf.reg with
   | none => return s!"DIFF C13 model-getinfo-undecodable {feats}"
@@ -494,6 +532,86 @@ def cmdAbort : P String := do
   if count != 0 then return s!"DIFF C10 active-count-not-zero-at-the-end count={count} {feats}"
   return s!"OK {feats}"
 
-def table : List (String × P String) := [("act", cmdAct), ("atoi", cmdAtoi), ("addr", cmdAddr), ("reg", cmdReg), ("client", cmdClient), ("e2e", cmdE2e), ("abort", cmdAbort)]
+/-! ## C01 (N concurrent connections): `connr <registry> <stream> | <replies> <n>` — replies only -/
+
+def cmdConnR : P String := do
+  let reg ← Driver.registryP
+  let stream ← bytes
+  expect "|"
+  let replies ← bytes
+  let n ← nat
+  let (frames, _tail) := splitOnNul stream
+  let t := connLoop reg scriptedBehaviour frames
+  let (obsFrames, obsTail) := splitOnNul replies
+  let feats := s!"nt={if frames.length ≥ 2 then 1 else 0} conns={n} calls={if frames.length > 10 then 11 else frames.length} frames={if t.frames.length > 10 then 11 else t.frames.length} end={Driver.endingStr t.ending}"
+  if !obsTail.isEmpty then return s!"DIFF C02 trailing-bytes-without-nul {feats}"
+  let parsed := obsFrames.map readReplyFrame
+  if parsed.any Option.isNone then return s!"DIFF C02 reply-not-a-reply-object {feats}"
+  if !listBeq ReplyFrame.beq (t.frames.map ReplyFrame.sanitize) (parsed.filterMap id) then
+    return s!"DIFF C01 frames-on-a-connection-differ-while-other-connections-are-active expected={t.frames.length} observed={obsFrames.length} {feats}"
+  return s!"OK {feats}"
+
+/-! ## the JSON model against encoding/json: `jsonself <text> | <valid> <decoded> <remarshalled>` -/
+
+def bytesLt : Bytes → Bytes → Bool
+  | [], [] => false
+  | [], _ => true
+  | _, [] => false
+  | a :: as, b :: bs => if a < b then true else if b < a then false else bytesLt as bs
+
+/-- insert into a key-sorted member list, replacing an equal key (last duplicate wins, as Go's map does) -/
+def insertMember (k : Bytes) (v : JVal) : List (Bytes × JVal) → List (Bytes × JVal)
+  | [] => [(k, v)]
+  | (k', v') :: t =>
+    if k == k' then (k, v) :: t
+    else if bytesLt k k' then (k, v) :: (k', v') :: t
+    else (k', v') :: insertMember k v t
+
+/-- what decoding into `map[string]interface{}` and re-encoding does to a value: keys sorted, last duplicate wins -/
+partial def canonMap : JVal → JVal
+  | .arr xs => .arr (JList.ofList (xs.toList.map canonMap))
+  | .obj ms => .obj (JMembers.ofList ((ms.toList.map fun (k, v) => (k, canonMap v)).foldl (fun acc (k, v) => insertMember k v acc) []))
+  | v => v
+
+def cmdJsonSelf : P String := do
+  let text ← bytes
+  expect "|"
+  let valid ← bool
+  let decoded ← bool
+  let out ← bytes
+  let m := parseDoc text
+  let feats := s!"nt={if text.length ≥ 8 then 1 else 0} valid={valid} len={if text.length > 200 then 201 else text.length / 20 * 20}"
+  match m with
+  | none =>
+    if valid then return s!"DIFF JSON model-rejects-what-encoding/json-accepts {feats}"
+    return s!"OK {feats}"
+  | some v =>
+    if !valid then return s!"DIFF JSON model-accepts-what-encoding/json-rejects {feats}"
+    if !decoded then return s!"OK undecoded=1 {feats}"
+    if render (canonMap v) != out then return s!"DIFF JSON render-of-decoded-value-differs {feats}"
+    return s!"OK {feats}"
+
+/-! ## C18 end to end: `upgrade <scenario> <coalesced> <k> {bufsize} <toSvc> <toCli> | <gotSvc> <gotCli>` -/
+
+def cmdUpgrade : P String := do
+  let scenario ← tok
+  let coalesced ← bool
+  let sizes ← listOf nat
+  let toSvc ← bytes
+  let toCli ← bytes
+  expect "|"
+  let gotSvc ← bytes
+  let gotCli ← bytes
+  let big := sizes.any (· ≥ 4096)
+  let feats := s!"nt={if coalesced then 1 else 0} scenario={scenario} coalesced={coalesced} bigbuf={big} n={if toSvc.length + toCli.length > 4096 then 4097 else (toSvc.length + toCli.length) / 512 * 512}"
+  -- stream_exactly_once: what follows the frame is delivered exactly once, in order, whatever the
+  -- read sizes and however it was segmented
+  if gotSvc != toSvc then
+    return s!"DIFF C18 handler-did-not-receive-the-upgraded-payload expected={toSvc.length} got={gotSvc.length} {feats}"
+  if gotCli != toCli then
+    return s!"DIFF C18 client-did-not-receive-the-upgraded-payload expected={toCli.length} got={gotCli.length} {feats}"
+  return s!"OK {feats}"
+
+def table : List (String × P String) := [("act", cmdAct), ("atoi", cmdAtoi), ("addr", cmdAddr), ("reg", cmdReg), ("client", cmdClient), ("e2e", cmdE2e), ("abort", cmdAbort), ("connr", cmdConnR), ("jsonself", cmdJsonSelf), ("upgrade", cmdUpgrade)]
 
 end Driver.Misc
